@@ -409,11 +409,17 @@ def general_program(draw, cfg, max_steps=30, extra=(), disable=()):
             # quoted text built from words that also occur as syntax elsewhere: label names with their colon,
             # mnemonics, a semicolon, the other quote character
             words = [n + ':' for n in b.planned] + ['nop', 'ldi 5', '; not a comment', "it's", 'a,b', '  ', '#if', '.org', 'x=1']
+            prev = b.stack[-1][-1] if b.stack[-1] else None
+            if prev is not None and prev['t'] == 'label':
+                # the label right in front of the string (possibly on the same line) named inside the string
+                words = [prev['name'] + ':', prev['name'] + ': ' + prev['name'] + ':'] * 3 + words
             text = ' '.join(d(st.lists(st.sampled_from(words), min_size=1, max_size=3)))[:20]
             q = d(st.sampled_from(['"', '"', "'"]))
             chars = [ord(c) for c in text if c != '\\']
             if d(st.integers(0, 3)) == 0:
                 chars.append(['esc', 10, '\\n'])
+            if d(st.integers(0, 3)) == 0:
+                chars.append(['esc', 92, '\\\\'])      # the text ends in an escaped backslash, right before the closing quote
             if b.isa.embedded_strings and d(st.booleans()):
                 # a bare double-quoted line is a terminated string where the ISA enables it
                 b.add({'t': 'str', 'd': 'bare', 'chars': chars, 'q': '"'})
